@@ -286,8 +286,9 @@ func (li *Listener) Close() error {
 	li.doneOnce.Do(func() {
 		close(li.doneChan)
 	})
+	qerr := li.ql.Close()
 	perr := li.pc.Close()
-	if qerr := li.ql.Close(); qerr != nil {
+	if qerr != nil {
 		return qerr
 	}
 
